@@ -1,4 +1,5 @@
 import Cjet.Lemmas.DaemonC01Examples
+import Cjet.Props.Cjson
 
 /-!
 # C01 — fetch gives every subscriber an exact, ordered replica of matching elements
@@ -382,5 +383,13 @@ theorem order_is_generation_order (cfg : Config) (s : State) (ops : List Op) (c 
   unfold obsOf
   rw [key, List.map_map]
   rfl
+
+/-! ### values pass through the daemon by parse then print (vendored cJSON.c): strings and number-free trees come back exactly; a double comes back bit for bit given strtod(sprintf %.17g d) = d (code as repaired, F65) -/
+
+theorem json_string_survives_print_parse : type_of% @Cjet.Props.Cjson.print_parse_string_roundtrip := @Cjet.Props.Cjson.print_parse_string_roundtrip
+theorem json_tree_survives_print_parse : type_of% @Cjet.Props.Cjson.print_parse_tree_roundtrip := @Cjet.Props.Cjson.print_parse_tree_roundtrip
+theorem json_number_survives_print_parse_given_number_oracle_partial : type_of% @Cjet.Props.Cjson.number_survives_print_parse_given_number_oracle_partial := @Cjet.Props.Cjson.number_survives_print_parse_given_number_oracle_partial
+theorem json_print_number_is_exact_as_built : type_of% @Cjet.Props.Cjson.print_number_is_exact_as_built := @Cjet.Props.Cjson.print_number_is_exact_as_built
+theorem json_number_print_before_fix : type_of% @Cjet.Props.Cjson.number_print_counterexample_before_fix := @Cjet.Props.Cjson.number_print_counterexample_before_fix
 
 end Cjet.Daemon.C01
